@@ -82,6 +82,7 @@ type Obligation struct {
 	Results []SolverResult
 	File    string
 	Known   *KnownFinding
+	Vacuous bool   // the clause's hypothesis is unsatisfiable: a proof of it counts for nothing
 	BindErr string // a clause of this function's contract no longer binds to the code (renamed local, moved loop): failures are undecided, not violations
 	Witness string // replay key (kind/slot) when the obligation comes from an expansion
 	Props   []string
@@ -175,6 +176,8 @@ type FnCtx struct {
 	inl         *inlFrame // non-nil while a function literal is executed in place
 	atAny       []*ssa.BasicBlock
 	backFrom    *ssa.BasicBlock            // source block of the back edge whose `loop L body` clauses are being checked
+	hypSites    map[string][]Term          // per body clause `A ==> B`: (back-edge condition AND A) at every back edge (vacuity guard)
+	headPhis    map[*ssa.Phi]*Val          // while the clauses of a back edge are checked: the loop-head values of the header phis
 	bindIter    *loopInfo                  // loop whose body clause is being bound
 	exitSt      map[*loopInfo]*State       // state in which a loop was last left (for atexit/passed)
 	iterEntFlag map[*loopInfo]map[int]Term // value of iteration-local flags on entry to an inner loop
@@ -1404,8 +1407,10 @@ func (c *FnCtx) backEdge(li *loopInfo, from *ssa.BasicBlock, st *State, cond Ter
 	for phi, v := range newv {
 		c.regs[phi] = v
 	}
+	c.headPhis = saved // athead(L, x) of a local x reads the value at the START of the iteration
 	c.loopInvariants(li, st, cond, fmt.Sprintf("back.b%d", from.Index))
 	c.loopBodies(li, st, cond, from)
+	c.headPhis = nil
 	for phi, v := range saved {
 		c.regs[phi] = v
 	}
